@@ -163,9 +163,11 @@ func (s *Schema) Rels() []Rel {
 	}
 
 	sort.Slice(rels, func(i, j int) bool {
-		name1 := rels[i].FromType + rels[i].FromName
-		name2 := rels[j].FromType + rels[j].FromName
-		return name1 < name2
+		if rels[i].FromType != rels[j].FromType {
+			return rels[i].FromType < rels[j].FromType
+		}
+
+		return rels[i].FromName < rels[j].FromName
 	})
 
 	return rels
@@ -266,8 +268,15 @@ func (s *Schema) buildRels() {
 
 	for _, typ := range s.Types {
 		for _, rel := range typ.Rels {
-			relName := rel.String()
-			s.rels[relName] = rel.Normalize()
+			rel = rel.Normalize()
+
+			// The names are quoted because Rel.String is ambiguous
+			// when names contain underscores.
+			relName := fmt.Sprintf(
+				"%q %q %q %q",
+				rel.FromType, rel.FromName, rel.ToType, rel.ToName,
+			)
+			s.rels[relName] = rel
 		}
 	}
 }
